@@ -19,6 +19,7 @@ type BuilderView struct {
 	RefFields map[string]string
 	// ScalarFields: field name -> scalar kind, for plain (unconstrained, non-constant) scalar fields
 	ScalarFields map[string]string
+	Factories    int
 }
 
 type OptionView struct {
@@ -48,6 +49,7 @@ func BuildersViewOf(schemas ast.Schemas, builders ast.Builders) []BuilderView {
 				}
 			}
 		}
+		bv.Factories = len(b.Factories)
 		for _, o := range b.Options {
 			ov := OptionView{Name: o.Name, NArgs: len(o.Args)}
 			for _, a := range o.Args {
@@ -88,6 +90,9 @@ type RuleSpec struct {
 	Flag      bool        `json:"flag,omitempty"`
 	Method    string      `json:"method,omitempty"`
 	FieldName string      `json:"field_name,omitempty"`
+	// Lang is the language tag of the veneer file the rule is written to in the
+	// rewriter-order check ("all" or the language under test)
+	Lang string `json:"lang,omitempty"`
 	// Misconfigured: the generator knows the parameters do not fit together
 	// (merge_into whose source is not the type found under the path)
 	Misconfigured bool `json:"misconfigured,omitempty"`
@@ -212,6 +217,11 @@ func GenRuleSpec(r *Rand, bvs []BuilderView, pkg string, scope string, kind stri
 			}
 			if r.Chance(1, 3) {
 				rs.Map = [][2]string{{pickOpt(nil).Name, "renamedOpt"}}
+				if r.Bool() {
+					// renames that interact: a chain, and two keys differing by case only
+					a, b2 := pickOpt(nil).Name, pickOpt(nil).Name
+					rs.Map = [][2]string{{a, b2}, {b2, "legacy" + b2}, {strings.ToUpper(a), "upper" + a}}
+				}
 			}
 		case "compose":
 			rs.SelKind, rs.SelA = "by_variant", Pick(r, []string{"panelcfg", "dataquery"})
@@ -284,6 +294,10 @@ func GenRuleSpec(r *Rand, bvs []BuilderView, pkg string, scope string, kind stri
 			rs.Names = []string{pickOpt(nil).Name}
 			rs.Type = &TypeSpec{K: "string"}
 			rs.Flag = r.Bool()
+			if r.Chance(1, 3) {
+				rs.Method = "nested-factory" // the option call's parameter is itself a factory call
+				rs.Source = b.Name
+			}
 		}
 		return rs
 	}
@@ -448,7 +462,10 @@ func (rs RuleSpec) YAML() string {
 			p("        options:")
 			for _, n := range rs.Names {
 				p("          - name: %s\n            parameters:", yq(n))
-				if rs.Flag {
+				if rs.Method == "nested-factory" {
+					p("              - factory:\n                  ref: {package: somepkg, builder: %s, factory: Other}\n                  parameters:\n                    - constant:\n                        value: %s\n                        type:", yq(rs.Source), jsonLit("nested"))
+					b.WriteString(rs.Type.yaml("                          "))
+				} else if rs.Flag {
 					p("              - argument:\n                  name: preset\n                  type:")
 					b.WriteString(rs.Type.yaml("                    "))
 				} else {
